@@ -151,7 +151,8 @@ struct Req
 };
 
 static const char *MAL_KINDS[] = {"noversion", "badmethod", "unkmethod", "badversion", "http2", "nohost",
-                                  "obsfold", "ctl", "badcl", "hugecl", "garbage", "twospaces", "duphost"};
+                                  "obsfold", "ctl", "badcl", "hugecl", "garbage", "twospaces", "duphost",
+                                  "badte", "conflictcl", "badcl", "hugecl"};
 
 static std::string buildMalformed(const std::string &mk, const std::string &tok, vf::Rng &rng)
 {
@@ -167,6 +168,8 @@ static std::string buildMalformed(const std::string &mk, const std::string &tok,
   if (mk == "ctl") return "GET /w/" + tok + "\x01zz HTTP/1.1\r\n" + host + x + "\r\n";
   if (mk == "badcl") return "POST /echo/" + tok + " HTTP/1.1\r\n" + host + x + "Content-Length: abc\r\n\r\n";
   if (mk == "hugecl") return "POST /echo/" + tok + " HTTP/1.1\r\n" + host + x + "Content-Length: 99999999999\r\n\r\n";
+  if (mk == "badte") return "POST /echo/" + tok + " HTTP/1.1\r\n" + host + x + "Transfer-Encoding: gzip\r\n\r\n";
+  if (mk == "conflictcl") return "POST /echo/" + tok + " HTTP/1.1\r\n" + host + x + "Content-Length: 3\r\nContent-Length: 5\r\n\r\n";
   if (mk == "twospaces") return "GET  /w/" + tok + " HTTP/1.1\r\n" + host + x + "\r\n";
   if (mk == "duphost") return "GET /w/" + tok + " HTTP/1.1\r\n" + host + "Host: other\r\n" + x + "\r\n";
   // garbage: bytes without CR, LF or ':' then the header terminator
@@ -416,11 +419,22 @@ static void runConn(Conn &c, int port, const Timeouts &to)
     size_t batch = c.pipe ? std::min<size_t>(c.depth, nreq - sent) : 1;
     std::string wire;
     std::vector<size_t> ends;
-    for (size_t i = sent; i < sent + batch; i++) { wire += c.reqs[i].raw; ends.push_back(wire.size()); }
+    size_t cutLimit = 0; // cut points are drawn from [0, cutLimit]
+    for (size_t i = sent; i < sent + batch; i++)
+    {
+      wire += c.reqs[i].raw;
+      ends.push_back(wire.size());
+      // The first request that makes the server close becomes complete only with the LAST
+      // segment: bytes the client sends after the server has closed are answered with RST, which
+      // may discard response bytes still queued in the server's kernel — a loss this client would
+      // have caused itself. (Nothing is ever sent after a Connection: close request anyway.)
+      if (cutLimit == 0 && (c.reqs[i].kind == "malformed" || c.reqs[i].close)) cutLimit = wire.size() - 1;
+    }
+    if (cutLimit == 0) cutLimit = wire.size();
     // write in 1..4 segments at arbitrary cut points (also inside a request)
     unsigned segs = 1 + unsigned(rng.below(c.pipe ? 4 : 2));
     std::vector<size_t> cuts;
-    for (unsigned s = 1; s < segs; s++) cuts.push_back(size_t(rng.below(wire.size() + 1)));
+    for (unsigned s = 1; s < segs; s++) cuts.push_back(size_t(rng.below(cutLimit + 1)));
     cuts.push_back(wire.size());
     std::sort(cuts.begin(), cuts.end());
     size_t w = 0;
